@@ -493,6 +493,15 @@ class Runner:
         st, en = self.bound(x), self.bound(x)
         if rng.random() < 0.3: st = 0
         if rng.random() < 0.3: en = None
+        if rng.random() < 0.2:
+            # directed: the range ends exactly where a setting (preferably one equal to a removed one) starts
+            starts = [(k, q) for k, p in x._fmts.items() for q in p.add if k > 0]
+            if starts:
+                k, q = rng.choice(starts)
+                en = k
+                st = rng.choice([0, max(0, k - 1), max(0, k - 2), rng.randint(0, k)])
+                if rng.random() < 0.7:
+                    a = ('obj', str(q)) if rng.random() < 0.6 else None
         self.do_remove(x, a, st, en)
 
     def do_remove(self, x, a, st, en):
